@@ -152,7 +152,33 @@ def build(spec: dict, cycles: int, ds: list[int], as_: list[int]):
     E = {0: InitialStateEnum.ZERO, 1: InitialStateEnum.ONE}
     ist = InitialStateContainer.from_ordered_list([E[b] for b in ds], [E[b] for b in as_])
     desc = make_description(spec)
+    warm_up_composite(spec, desc)
     return desc, construct_repetition_code_circuit(qec_cycles=cycles, description=desc, initial_state=ist)
+
+
+def warm_up_composite(spec: dict, desc) -> None:
+    """Before the circuit is built, the description serves as the base of a composite description (as a multi-code script does:
+    one plain description per chain, composites on top of them) whose leading description brings OTHER qubits, and the composite is
+    read.  What the plain description says afterwards must not depend on it (seeded change C09-m7: `qubit_ids` computed once and handed
+    out un-copied; the composite extends the list it was given).  Layout descriptions only; nothing the composite answers is judged."""
+    if spec.get('kind') != 'layout':
+        return
+    try:
+        from qce_circuit.library.repetition_code import repetition_code_connectivity as m
+        from qce_circuit.library.repetition_code.circuit_components import RepetitionCodeDescription, CompositeRepetitionCodeDescription
+        from qce_circuit.connectivity.intrf_channel_identifier import QubitIDObj
+        lay = getattr(m, spec['layout'])()
+        other = next((c for c in sub_chains(spec['layout']) if len(c) == 3 and not set(c) <= set(spec['ids'])), None)
+        if other is None:
+            return
+        lead = RepetitionCodeDescription.from_connectivity(involved_qubit_ids=[QubitIDObj(x) for x in other], connectivity=lay)
+        names = list(dict.fromkeys(list(spec['ids']) + list(other)))
+        comp = CompositeRepetitionCodeDescription(
+            _base_description=desc, _qubit_index_map={QubitIDObj(x): i for i, x in enumerate(names)}, _connectivity=lay,
+            _leading_gate_description=lead)
+        _ = (comp.qubit_ids, comp.data_qubit_ids, comp.ancilla_qubit_ids, comp.gate_sequences, comp.qubit_indices)
+    except Exception:   # noqa — the warm-up is not what is judged
+        pass
 
 
 def _fmt_num(x: float) -> str:
